@@ -608,12 +608,32 @@ func (f *fragment) row(rowID uint64) *Row {
 func (f *fragment) unprotectedRow(rowID uint64) *Row {
 	r, ok := f.rowCache.Fetch(rowID)
 	if ok && r != nil {
-		return r
+		return isolatedRowCopy(r)
 	}
 
 	row := f.rowFromStorage(rowID)
 	f.rowCache.Add(rowID, row)
-	return row
+	return isolatedRowCopy(row)
+}
+
+// isolatedRowCopy returns a row which the caller may modify (SetBit, Merge,
+// Attrs, ...) without affecting r, the row held by the row cache. The
+// containers are shared but frozen, so they are copied on write.
+func isolatedRowCopy(r *Row) *Row {
+	other := &Row{
+		segments: make([]rowSegment, len(r.segments)),
+		Keys:     r.Keys,
+		Attrs:    r.Attrs,
+	}
+	for i := range r.segments {
+		other.segments[i] = rowSegment{
+			shard:    r.segments[i].shard,
+			data:     r.segments[i].data.Freeze(),
+			writable: true,
+			n:        r.segments[i].n,
+		}
+	}
+	return other
 }
 
 // rowFromStorage clones a row data out of fragment storage and returns it as a
